@@ -212,7 +212,7 @@ Definition registry_verdict (reg : str) : option bool :=
 (* three-valued parse for the correspondence check: the registry check is the model of net/url
    (Model/NetURL.v); unjudged only where the answer depends on netip.ParseAddr *)
 Inductive verdict := VOk (r : reference) | VErr | VUnjudged.
-Definition go_vr : str -> bool := go_valid_registry (fun _ => true).
+Definition go_vr : str -> bool := go_registry.
 Definition parse_verdict (avail : str -> bool) (s : str) : verdict :=
   match split_first c_slash s with
   | None => VErr
